@@ -417,12 +417,17 @@ def check(report, tier):
         report.coverage["allocator_part"] = {std: a for std, a in al}
         std, a = al[0]
         if a["alloc_tr"] == 0 and (a["vector_tr"] or a["smallvector_tr"]):
-            report.notes.append(
-                "finding candidate (not counted as a violation: the property's conjunction is read over T, Compare, VecType, SetType as the headers "
-                "document it): the allocator base is not a part of any container's trivially_relocatable typedef. Decided by the compiler (-std=%s): "
-                "amc::is_trivially_relocatable<probe::SelfAlloc<int>> = %d (stateful, points to itself), yet amc::vector<int,SelfAlloc<int>> = %d "
-                "(sizeof %d: the allocator is stored), amc::SmallVector<int,4,SelfAlloc<int>> = %d, amc::FlatSet<int,std::less<int>,SelfAlloc<int>> = %d"
-                % (std, a["alloc_tr"], a["vector_tr"], a["sizeof_vector"], a["smallvector_tr"], a["flatset_tr"]))
+            txt = ("amc::is_trivially_relocatable<probe::SelfAlloc<int>> = %d (stateful allocator storing a pointer to itself), yet "
+                   "amc::vector<int,SelfAlloc<int>> claims %d (sizeof %d: the allocator is stored in the object), amc::SmallVector<int,4,SelfAlloc<int>> %d, "
+                   "amc::FlatSet<int,std::less<int>,SelfAlloc<int>> %d (-std=%s)"
+                   % (a["alloc_tr"], a["vector_tr"], a["sizeof_vector"], a["smallvector_tr"], a["flatset_tr"], std))
+            known = [k for k in C.load_known() if k.get("kind") == "finding" and "C17" in k.get("properties", []) and k.get("id") == "allocator-not-part-of-trait"]
+            if known:
+                report.known_finding("%s: %s" % (known[0]["site"], known[0]["failure"]))
+                report.notes.append("known finding observed: " + txt)
+            else:
+                report.violation({"instance": "probe::SelfAlloc<int>", "observed": a, "expected": "a container whose stored allocator is not trivially relocatable does not claim the trait",
+                                  "found_by": "compiler-probe", "no_failing_input_found": False}, "trivially_relocatable typedef ignores the allocator part: " + txt)
     report.level = "proof"
 
 
